@@ -2,6 +2,7 @@ package main
 
 import (
 	"fmt"
+	"github.com/Vedant9500/WTF/internal/recovery"
 	"math"
 	"math/rand"
 	"os"
@@ -278,8 +279,41 @@ func c03Query(r *rand.Rand, words []string) string {
 	return q
 }
 
+// c03Fallback: the databases the loader hands out when the main database cannot be read (missing file: the built-in list; the
+// same with a malformed notebook, and with a malformed main file) answer like an exhaustive scan of their own entries, too.
+func c03Fallback(ctx *Ctx, r *rand.Rand) {
+	dir := filepath.Join(ctx.Scratch, "c03fb")
+	os.MkdirAll(dir, 0o755)
+	defer os.RemoveAll(dir)
+	bad := filepath.Join(dir, "bad.yml")
+	os.WriteFile(bad, []byte("- command: \"broken\n  description: [\n"), 0o644)
+	for k, pp := range [][2]string{{filepath.Join(dir, "missing.yml"), filepath.Join(dir, "no-notebook.yml")}, {bad, filepath.Join(dir, "no-notebook.yml")}, {filepath.Join(dir, "missing.yml"), bad}} {
+		var db *database.Database
+		hist := []string{[]string{"fallback: main database missing", "fallback: main database malformed", "fallback: main database missing, notebook malformed"}[k]}
+		if !ctx.R.Guard("C03", "LoadDatabaseWithFallback", hist, func() {
+			var err error
+			db, err = recovery.NewDatabaseRecovery(recovery.RetryConfig{MaxAttempts: 1}).LoadDatabaseWithFallback(pp[0], pp[1])
+			if err != nil {
+				panic(err)
+			}
+		}) || db == nil || len(db.Commands) == 0 {
+			continue
+		}
+		words := vlib.DBWords(db.Commands)
+		for i, w := range words {
+			if i%ctx.NShards != ctx.Shard {
+				continue
+			}
+			c03Check(ctx, db, hist, w, database.SearchOptions{AllPlatforms: true}, "fallback")
+			c03Check(ctx, db, hist, w+" "+vlib.Word(r, words), database.SearchOptions{AllPlatforms: r.Intn(2) == 0}, "fallback")
+			ctx.R.Path("fallback-database-requests", 2)
+		}
+	}
+}
+
 func engineIndexScan(ctx *Ctx) {
 	r := vlib.NewRand(ctx.Seed, ctx.Shard, "indexscan")
+	c03Fallback(ctx, r)
 	nHist := ctx.N(640, 32000)
 	prevStart, prevKind := time.Now(), "ordinary"
 	for h := 0; h < nHist; h++ {
@@ -416,6 +450,16 @@ func engineIndexScan(ctx *Ctx) {
 					for i := 0; i < 1+r.Intn(3); i++ {
 						w := vlib.Word(r, words)
 						o.ContextBoosts[w] = []float64{1, 1.5, 2, 3, 10}[r.Intn(5)]
+					}
+					if toks := vlib.Tokenize(q); r.Intn(2) == 0 && len(toks) > 0 {
+						// boost words as a project context supplies them (script and target names, capitalised tool names): they hold a word
+						// of the query but are not that word - a boost belongs to the term it names exactly, to no other
+						w, w2 := toks[r.Intn(len(toks))], vlib.Word(r, words)
+						for i := 0; i < 1+r.Intn(3); i++ {
+							k := []string{strings.ToUpper(w), strings.ToUpper(w[:1]) + w[1:], " " + w, w + " ", w + "-" + w2, w2 + ":" + w, w + "_" + w2, w2 + "/" + w, w + "." + w2, w + " " + w2}[r.Intn(10)]
+							o.ContextBoosts[k] = []float64{1.5, 2, 3, 10}[r.Intn(4)]
+						}
+						ctx.R.Path("requests-with-boost-words-that-only-contain-a-query-word", 1)
 					}
 				}
 				if r.Intn(5) == 0 {
